@@ -374,7 +374,7 @@ def expand(fx, method, endpoint, thorough):
         elif key == "GET /admin/validation/":
             reqs += [(path, None, None, ""), (path + "?method=POST&path=/admin/users/", None, None, ""), (path + "?entry=@user", None, None, "")]
         elif key == "GET /services/admin/log":
-            reqs += [(path + "?tail=2000", None, None, ""), (path + "?tail=300", None, {"Accept": "text/plain"}, "text"),
+            reqs += [(path + "?tail=100000", None, None, "whole log"), (path + "?tail=300", None, {"Accept": "text/plain"}, "text"),
                      (path + "?tail=500&class=server,auth,rest,app", None, None, "classes")]
         elif key in ("POST /admin/run", "POST /admin/ast", "POST /admin/format"):
             reqs.append((path, {"code": 'import "fmt"\nfunc main() {\n fmt.Println("hello")\n}\n'}, None, "benign program"))
@@ -437,11 +437,15 @@ class Recorder:
         self.fx, self.recs, self.only = fx, [], only
         self.hist = {}
 
-    def do(self, route, method, path, body=None, headers=None, asked=None, phase="scan", note="", token=True):
-        if self.only and route != self.only:
+    def do(self, route, method, path, body=None, headers=None, asked=None, phase="scan", note="", token=True, sync=None, auth=None):
+        """one request; `sync` (for requests that change a store) re-reads the stores between the answer and the search, so
+        that the answer is searched for the values the request itself caused to be stored"""
+        if self.only and route != self.only and not sync:
             return None
         fx = self.fx
-        r = fx.srv.req(method, path, body, token=fx.tok if token else None, headers=headers, raw=True)
+        r = fx.srv.req(method, path, body, token=fx.tok if token else None, headers=headers, raw=True, auth=auth)
+        if sync:
+            sync(r)
         found = fx.reg.locate(r.body, r.headers)
         self.hist[r.status] = self.hist.get(r.status, 0) + 1
         self.recs.append(dict(route=route, method=method, path=path, status=r.status, asked=asked or [], phase=phase, note=note,
@@ -525,26 +529,49 @@ def history_phase(rec, fx, rng, names, thorough):
     fx.unclaimed_pw2 = canary(rng)
     patch = {"ego.server.oauth.client.secret": canary(rng), "ego.server.ai.model": canary(rng),
              "ego.server.default.credential": "admin:" + fx.unclaimed_pw2}
-    r = rec.do("PATCH /admin/config", "PATCH", "/admin/config", patch, phase=ph, note="new values")
-    if r is not None and r.status == 200:
+
+    def patched(r):
+        if r.status != 200:
+            raise vf.NoVerdict("history phase: PATCH /admin/config refused (%s): %s" % (r.status, r.body[:300]))
         fx.settings.update(patch)
         fx.unclaimed_pw = fx.unclaimed_pw2
-    elif r is not None:
-        raise vf.NoVerdict("history phase: PATCH /admin/config refused (%s): %s" % (r.status, r.body[:300]))
+        fx.sync_settings()
+    rec.do("PATCH /admin/config", "PATCH", "/admin/config", patch, phase=ph, note="new values", sync=patched)
     rec.do("PATCH /admin/config", "PATCH", "/admin/config", {"ego.logon.refresh.token": canary(rng)}, phase=ph, note="read-only name")
-    fx.sync_settings()
-    erin_pw, erin_pw2 = canary(rng), canary(rng)
-    rec.do("POST /admin/users/", "POST", "/admin/users/", {"name": "erin", "password": erin_pw, "permissions": ["ego.logon"]}, phase=ph, note="create")
-    fx.sync_users()
-    rec.do("PATCH /admin/users/{{name}}", "PATCH", "/admin/users/erin", {"name": "erin", "password": erin_pw2}, phase=ph, note="new password")
-    fx.sync_users()
-    btok = fx.srv.logon("bob", "pw-bob-1")            # first logon re-hashes bob's legacy credential
-    fx.sync_users()
+    users = lambda r: fx.sync_users()
+    rec.do("POST /admin/users/", "POST", "/admin/users/", {"name": "erin", "password": canary(rng), "permissions": ["ego.logon"]},
+           phase=ph, note="create", sync=users)
+    rec.do("PATCH /admin/users/{{name}}", "PATCH", "/admin/users/erin", {"name": "erin", "password": canary(rng)}, phase=ph, note="new password", sync=users)
+    rec.do("PATCH /admin/users/{{name}}", "PATCH", "/admin/users/erin", {"name": "erin", "permissions": ["+ego.table.read"]}, phase=ph,
+           note="new permission", sync=users)
+    # first logon re-hashes bob's legacy credential
+    box = {}
+
+    def logged_on(r):
+        try:
+            box["tok"] = json.loads(r.body).get("token")
+        except ValueError:
+            pass
+        fx.sync_users()
+    rec.do("POST /services/admin/logon", "POST", "/services/admin/logon", phase=ph, note="bob's first logon", token=False,
+           auth=("bob", "pw-bob-1"), sync=logged_on)
+    btok = box.get("tok")
     new_pg = canary(rng)
-    r = rec.do("PATCH /dsns/{{dsn}}/", "PATCH", "/dsns/pg1/", {"password": new_pg}, phase=ph, note="new password")
-    if r is not None and r.status == 200:
-        fx.dsn_plain["pg1"] = new_pg
-    fx.sync_dsns()
+
+    def dsn_changed(r):
+        if r.status == 200:
+            fx.dsn_plain["pg1"] = new_pg
+        fx.sync_dsns()
+    rec.do("PATCH /dsns/{{dsn}}/", "PATCH", "/dsns/pg1/", {"password": new_pg}, phase=ph, note="new password", sync=dsn_changed)
+    new_d2 = canary(rng)
+
+    def dsn_created(r):
+        if r.status == 201:
+            fx.dsn_plain["pg2"] = new_d2
+        fx.sync_dsns()
+    rec.do("POST /dsns/", "POST", "/dsns/", {"name": "pg2", "provider": "postgres", "database": "cnrydb2", "host": "127.0.0.1",
+                                             "port": egosrv.free_port(), "user": fx.dsn_user, "password": new_d2}, phase=ph, note="create", sync=dsn_created)
+    rec.do("GET /services/admin/log", "GET", "/services/admin/log?tail=100000", phase=ph, note="after the changes")
     # ask again
     hot = [n for n in names if n in fx.settings or n in NAMED] + [n for n in fx.settings if n not in names]
     sweep_config(rec, fx, sorted(set(hot)) if not thorough else sorted(set(names) | set(fx.settings)), rng, ph, all_spellings=False)
@@ -554,7 +581,7 @@ def history_phase(rec, fx, rng, names, thorough):
     rec.do("GET /dsns/", "GET", "/dsns/", phase=ph)
     rec.do("GET /dsns/{{dsn}}/", "GET", "/dsns/pg1/", phase=ph)
     rec.do("GET /dsns/{{dsn}}/tables/", "GET", "/dsns/pg1/tables/", phase=ph, note="unreachable database")
-    rec.do("GET /services/admin/log", "GET", "/services/admin/log?tail=3000", phase=ph)
+    rec.do("GET /services/admin/log", "GET", "/services/admin/log?tail=100000", phase=ph, note="whole log")
     if btok:
         rec.do("GET /services/admin/authenticate", "GET", "/services/admin/authenticate", phase=ph, note="as bob", headers={"Authorization": "Bearer " + btok}, token=False)
     if thorough:
